@@ -42,7 +42,8 @@ def _rect_task(m, K, slack_kind, tier="quick"):
         lo1, up1 = R1.lower.snapshot.flat(), R1.upper.snapshot.flat()
         lo2, up2 = R2.lower.snapshot.flat(), R2.upper.snapshot.flat()
         W = S.rows_of(O)
-        vertex_formula = z3.And(*[S.dom(W, S.vadd(v2, svec), v1) for v1 in S.verts(lo1, up1) for v2 in S.verts(lo2, up2)])
+        shifted = (lambda v: v) if slack_kind == "zero" else (lambda v: S.vadd(v, svec))
+        vertex_formula = z3.And(*[S.dom(W, shifted(v2), v1) for v1 in S.verts(lo1, up1) for v2 in S.verts(lo2, up2)])
         t.must_fail()
         t.cover("pre-satisfiable", [])
         t.no_raise(paths)
